@@ -163,11 +163,31 @@ pub fn lab8() {
         if made.desc.contains(&want) {
             println!("{} seed={seed} i={i}", made.desc);
             for l in made.world.trace.render(0, 6000) {
-                if l.contains(" api ") || l.contains("ifedit") || l.contains(" ev#") || (l.contains(" tx ") && (l.contains("h2.local") || l.contains("svc2"))) {
+                let g = std::env::var("LAB_GREP").unwrap_or_else(|_| "h2.local,svc2".into());
+                if l.contains(" api ") || l.contains("ifedit") || l.contains(" ev#") || ((l.contains(" tx ") || l.contains(" rx ")) && g.split(',').any(|w| l.contains(w))) {
                     println!("  {}", crate::util::prefix(&l, 330));
                 }
             }
             break;
         }
     }
+}
+
+
+/// Runs one case of one part by its seed and prints what its monitor reports.
+pub fn lab9() {
+    let seed: u64 = std::env::var("LAB_SEED").ok().and_then(|s| s.parse().ok()).unwrap_or(0);
+    let part = std::env::var("LAB_PART").unwrap_or_default();
+    let mut l = crate::report::Local::default();
+    match part.as_str() {
+        "c18e" => c18::run_e(seed, &mut l),
+        "c18s" => c18::run_s(seed, &mut l),
+        "c18p" => c18::run_p(seed, &mut l),
+        "c17" => c17::run_one(seed, &mut l),
+        _ => println!("unknown part"),
+    }
+    for v in l.violations.iter() {
+        println!("{}", serde_json::to_string_pretty(&serde_json::json!({"signature": v.signature, "message": v.message, "witness": v.witness})).unwrap());
+    }
+    println!("activations {:?} inconclusive {:?}", l.activations, l.inconclusive);
 }
